@@ -187,6 +187,50 @@ def replace (params : List (Value N)) : Except NativeError (Value N) :=
   | _ :: _ :: _ => .error .wrongParameterType
   | _ => .error (.wrongParameterCount 3)
 
+/-- `contains` (src/stdlib/common.rs) -/
+def contains (params : List (Value N)) : Except NativeError (Value N) :=
+  match params with
+  | [.str haystack, .str needle] =>
+      (let found := Seq.containsSeq needle haystack
+       .ok (.bool found))
+  | [.arr haystack, needle] =>
+      (let found := List.any haystack (fun v => (Value.eq v needle))
+       .ok (.bool found))
+  | [_, _] => .error .wrongParameterType
+  | _ => .error (.wrongParameterCount 2)
+
+/-- `insert` (src/stdlib/common.rs) -/
+def insert (off : Nat) (params : List (Value N)) : Except NativeError (Value N) :=
+  match params with
+  | [.str target, .str source, .num index] =>
+      ((get_string_index off index) >>= fun index =>
+       if decide (index > target.length) then
+         .error (.indexOutOfBounds index)
+       else
+         (let before := List.take index target
+          let after := List.drop index target
+          .ok (.str ((before ++ source) ++ after))))
+  | [.arr values, element, .num index] =>
+      ((get_index index) >>= fun index =>
+       if decide (index > values.length) then
+         .error (.indexOutOfBounds index)
+       else
+         (let values := values
+          let values := Stdlib.insertAt values index element
+          .ok (.arr values)))
+  | [_, _, _] => .error .wrongParameterType
+  | _ => .error (.wrongParameterCount 3)
+
+/-- `unique` (src/stdlib/common.rs) -/
+def unique (params : List (Value N)) : Except NativeError (Value N) :=
+  match params with
+  | [.arr values] =>
+      (let result := []
+       let result := List.foldl (fun result value => if !(List.any result (fun r => Value.eq r value)) then result ++ [value] else result) result values
+       .ok (.arr result))
+  | [_] => .error .wrongParameterType
+  | _ => .error (.wrongParameterCount 1)
+
 /-- `is_even` (src/stdlib/math.rs) -/
 def is_even (value : N) : Bool :=
   (NumOps.beq (NumOps.rem (NumX.floor value) (NumX.ofNat 2)) NumOps.zero)
@@ -211,6 +255,15 @@ def pow (params : List (Value N)) : Except NativeError (Value N) :=
   match params with
   | (.num base) :: _ => .ok (.num (NumX.pow base exponent))
   | _ :: _ => .error .wrongParameterType
+  | _ => .error (.wrongParameterCount 1)
+
+/-- `split` (src/stdlib/string.rs) -/
+def split (params : List (Value N)) : Except NativeError (Value N) :=
+  match params with
+  | [.str line, .str separator] =>
+      (let values := List.map Value.str (Seq.splitOn separator line)
+       .ok (.arr values))
+  | [_, _] => .error .wrongParameterType
   | _ => .error (.wrongParameterCount 1)
 
 /-- `lowercase` (src/stdlib/string.rs) -/
